@@ -117,6 +117,8 @@ class Scheduler:
         optional 'focus_cps': [n1, n2..]: additional change points at the n-th point inside focus functions
     optional 'focus': [names of CRITICAL functions]: opcode events (and crit/pct focus points) only there
     {'policy': 'explicit', 'switches': [[gstep, to], ..]}  replay of a recorded schedule
+    optional for the random policies: 'ext_p' (extra pre-emption at external points), 'novel_p' (extra pre-emption at a line that
+    runs for the first time in the process - where lazily initialised, process-wide state is written)
     """
 
     def __init__(self, spec, opcodes=True, record_where=True):
@@ -142,6 +144,10 @@ class Scheduler:
         f = spec.get('focus')
         self._focus = set(f) if f is not None else None
         self._ext_p = spec.get('ext_p', 0)
+        # extra pre-emption where a line runs for the first time in this process: lazily initialised state is written there
+        self._novel_p = spec.get('novel_p', 0) if self.policy not in ('serial', 'explicit') else 0
+        self._seen_lines = set()
+        self.novel_switches = 0
         self._focus_cps = sorted(spec.get('focus_cps', []))
         self._focus_n = 0
         self.liveness = []        # records of step-budget overruns
@@ -318,6 +324,15 @@ class Scheduler:
                 others = self._runnable_others(st)
                 if others:
                     target = others[self.rng.randrange(len(others))]
+        if target is None and self._novel_p and kind == LINE:
+            key = (code, pos)
+            if key not in self._seen_lines:
+                self._seen_lines.add(key)
+                if self.rng.random() < self._novel_p:
+                    others = self._runnable_others(st)
+                    if others:
+                        target = others[self.rng.randrange(len(others))]
+                        self.novel_switches += 1
         if target is None:
             target = self._decide(st, cname)
         if target is not None and target is not st:
